@@ -78,12 +78,24 @@ def check_covariance(case):
     sd = TR.sd_of(tr)
     if sd is None:
         raise Discard()
+    if any(0.0 < v < 1e-12 for v in sd):
+        raise Discard()      # squares of such uncertainties are subnormal: no relative comparison is meaningful
     p = TR.params_of(tr)
     X = case["X"]
     V = np.array(case["vcv"], dtype=float)
+    dt = case.get("dtype", "float64")
+    if dt == "int64":
+        # integer-valued PSD matrix held in an integer array (e.g. np.diag([4, 1, 9])): scale to integers, B B^T keeps PSD
+        B = np.rint(V / (np.abs(V).max() or 1.0) * 3.0).astype(np.int64)
+        V = B @ B.T
+    elif dt == "float32":
+        # exactly representable (dyadic) PSD matrix held in single precision
+        B = np.rint(V / (np.abs(V).max() or 1.0) * 3.0)
+        V = ((B @ B.T) / 64.0).astype(np.float32)
     V_before = V.copy()
     got = tf.conform7(X[0], X[1], X[2], tr, V)
-    if not np.array_equal(V, V_before):
+    V = V.astype(float)
+    if not np.array_equal(V, V_before.astype(float)):
         raise Fail("conform7 modified the caller's covariance matrix", expected=V_before, observed=V)
     out = got[3]
     if out is None or not hasattr(out, "shape") or out.shape != (3, 3):
@@ -127,7 +139,7 @@ def _lazy(fn):
 
 cases = st.fixed_dictionaries({"trans": st.one_of(_lazy(_shipped), _lazy(_shipped), _random(False)), "X": TR.point(5e7)})
 cov_cases = st.fixed_dictionaries({"trans": st.one_of(_lazy(_shipped_with_sd), _random(True)), "X": TR.point(5e7),
-                                   "vcv": TR.psd3()})
+                                   "vcv": TR.psd3(), "dtype": st.sampled_from(["float64", "float64", "float64", "int64", "float32"])})
 
 
 def enumerate_shipped(tier, seed, shard, nshards):
@@ -168,6 +180,7 @@ def _classes(case):
         V = np.array(case["vcv"])
         r = int(np.linalg.matrix_rank(V)) if V.any() else 0
         out.append("vcv-rank:%d" % r)
+        out.append("vcv-dtype:" + case.get("dtype", "float64"))
     return out
 
 
@@ -185,6 +198,6 @@ SUBCHECKS = [
              quick=3000, thorough=300000, shards_quick=3, shards_thorough=12,
              rule="T then -T within the analytic second-order bound (+1 um) for random sets, stated bounds for shipped sets"),
     SubCheck("covariance_propagation", check_covariance, strategy=cov_cases, nontrivial=_nt, classes=_classes,
-             quick=2500, thorough=200000, shards_quick=3, shards_thorough=12, seq_groups=[["trans"], ["X"], ["vcv"]],
+             quick=2500, thorough=200000, shards_quick=3, shards_thorough=12, seq_groups=[["trans"], ["X"], ["vcv", "dtype"]],
              rule="vcv given and set carries uncertainties: result = S V S^T + sum sigma_k^2 g_k g_k^T (1e-9), symmetric, PSD; input untouched"),
 ]
